@@ -422,8 +422,10 @@ class UserIdentityNegotiationSubItem(object):
         self.reserved = reserved  # byte
         self.user_identity_type = user_identity_type  # byte
         self.positive_response_req = positive_response_req
-        self._primary_field = primary_field.encode('utf8')  # string
-        self._secondary_field = secondary_field.encode('utf8')  # string
+        # fields may carry binary data (kerberos ticket): bytes that are not UTF-8
+        # text are kept as they are (surrogateescape) in both directions
+        self._primary_field = primary_field.encode('utf8', 'surrogateescape')
+        self._secondary_field = secondary_field.encode('utf8', 'surrogateescape')
 
     @property
     def primary_field(self):
@@ -434,7 +436,7 @@ class UserIdentityNegotiationSubItem(object):
         :return: primary field value
         :rtype: str
         """
-        return self._primary_field.decode('utf8')
+        return self._primary_field.decode('utf8', 'surrogateescape')
 
     @property
     def secondary_field(self):
@@ -445,7 +447,7 @@ class UserIdentityNegotiationSubItem(object):
         :return: secondary field value
         :rtype: str
         """
-        return self._secondary_field.decode('utf8')
+        return self._secondary_field.decode('utf8', 'surrogateescape')
 
     def __repr__(self):
         return 'UserIdentityNegotiationSubItem(' \
@@ -497,7 +499,8 @@ class UserIdentityNegotiationSubItem(object):
         primary_field = stream.read(primary_field_len)
         secondary_field_len = struct.unpack('>H', stream.read(2))[0]
         secondary_field = stream.read(secondary_field_len)
-        return cls(primary_field.decode('utf8'), secondary_field.decode('utf8'), user_identity_type,
+        return cls(primary_field.decode('utf8', 'surrogateescape'),
+                   secondary_field.decode('utf8', 'surrogateescape'), user_identity_type,
                    positive_response_req, reserved)
 
 
@@ -533,7 +536,7 @@ class UserIdentityNegotiationSubItemAc(object):
 
         :return: item length
         """
-        return 2 + len(self.server_response.encode())
+        return 2 + len(self.server_response.encode('utf8', 'surrogateescape'))
 
     @property
     def total_length(self):
@@ -548,7 +551,8 @@ class UserIdentityNegotiationSubItemAc(object):
 
         :return: binary representation of an item
         """
-        server_response = self.server_response.encode()
+        # response may be binary (kerberos server ticket): see request sub-item
+        server_response = self.server_response.encode('utf8', 'surrogateescape')
         return b''.join(
             [self.header.pack(self.item_type, self.reserved, self.item_length,
                               len(server_response)),
@@ -562,7 +566,7 @@ class UserIdentityNegotiationSubItemAc(object):
         :return: new sub-item
         """
         _, reserved, _, response_len = cls.header.unpack(stream.read(cls.header.size))
-        server_response = stream.read(response_len).decode()
+        server_response = stream.read(response_len).decode('utf8', 'surrogateescape')
         return cls(server_response, reserved)
 
 
